@@ -158,7 +158,7 @@ def check_nested(n: int, c0: int, c1: int, c2: int, c3: int, x: int, p: int, for
     pre: 0 <= c0 <= 4 and 0 <= c1 <= 3 and 0 <= c2 <= 2 and 0 <= c3 <= 1
     pre: 0 <= p <= 3
     pre: 0 <= form <= 2
-    pre: h.in_shard(c0)
+    pre: h.in_shard(c0 + 5 * form)
     post: _
     """
     # a composition used as one element of a Sequence / of another Compose
@@ -255,7 +255,7 @@ CONDITIONS = [
     dict(fn="check_compose", shards=(20, 20), budget=(80, 1500),
          smoke=["check_compose(2, 1, 0, 0, 0, 0, 5, 0)", "check_compose(3, 4, 3, 2, 0, 0, 5, 3)",
                 "check_compose(1, 2, 0, 0, 0, 0, 5, 2)"]),
-    dict(fn="check_nested", shards=(5, 5), budget=(80, 900),
+    dict(fn="check_nested", shards=(15, 15), budget=(120, 900),
          smoke=["check_nested(2, 0, 0, 0, 0, 5, 0, 0)", "check_nested(2, 4, 3, 2, 0, 5, 3, 1)", "check_nested(3, 0, 0, 0, 0, 5, 3, 2)"]),
     dict(fn="check_combine", shards=(5, 5), budget=(80, 900),
          smoke=["check_combine(2, 1, 0, 0, 0, 5, 0)", "check_combine(3, 4, 3, 2, 0, 5, 3)"]),
